@@ -218,7 +218,7 @@ def indent_cases(rng, n_random):
 def run(tier, seed):
     rng = random.Random(seed)
     quick = tier == 'quick'
-    nr, rows = (500, 4) if quick else (8000, 8)
+    nr, rows = (1200, 4) if quick else (8000, 8)
     c1 = Clause('cosmetic-pairs', 'B',
                 '%d curated abbreviations (+%d xsl ones under xsl) and %d seeded random trees per syntax (c03_tags.gen_tree: depth <= 4, '
                 'width <= 3, ids, classes, attributes, text, repeaters, void elements, html/xsl snippet names), each compared between '
